@@ -268,13 +268,11 @@ func (s *Service) pruneOnHeaderDelete(ctx context.Context, height uint64) error 
 		s.checkpointMu.Unlock()
 		return err
 	}
-	if _, ok := s.checkpoint.FailedHeaders[height]; ok {
-		log.Warnw("Deleted header for a height previously failed to be pruned", "height", height)
-		log.Warn("Stored data for the height may never be pruned unless full resync!")
-		// TODO(@Wondertan): Do we wanna give here an additional retry before removing?
-		delete(s.checkpoint.FailedHeaders, height)
-	}
-	if height <= s.checkpoint.LastPrunedHeight {
+	// a height that previously failed to be pruned is below the checkpoint but its data is still
+	// stored: this is the last moment it can be pruned, so give it a retry. If that fails too, the
+	// error keeps the header (and the failed entry) in place for another attempt.
+	_, failedBefore := s.checkpoint.FailedHeaders[height]
+	if !failedBefore && height <= s.checkpoint.LastPrunedHeight {
 		s.checkpointMu.Unlock()
 		return nil
 	}
@@ -293,6 +291,7 @@ func (s *Service) pruneOnHeaderDelete(ctx context.Context, height uint64) error 
 
 	s.checkpointMu.Lock()
 	defer s.checkpointMu.Unlock()
+	delete(s.checkpoint.FailedHeaders, height)
 	if height <= s.checkpoint.LastPrunedHeight {
 		return nil
 	}
